@@ -1,4 +1,6 @@
 import PGM.Proofs.VECorrect
+import PGM.Proofs.QueryCorrect
+import PGM.Proofs.BPCorrect
 /-!
 # C02 — every query path answers from one and the same joint distribution
 
@@ -53,5 +55,56 @@ theorem marginal_consistent (d : Dom) (pots : CliqueVec (LogOf K)) (as bs : List
     (hσ : d.Valid σ) :
     sumOver d (as.filter (fun a => !bs.contains a)) σ (marginal d pots as) = marginal d pots bs σ :=
   Sem.marginal_consistent d pots as bs σ hd has hbs hsub hbsub hσ
+
+/-- **`datavector`**: the materialised vector lists `total · joint / Z` over all cells of the
+domain in row-major order (every attribute of the domain occurs in some clique) -/
+theorem datavector_correct (d : Dom) (cliques : List Clique) (pots : CliqueVec (LogOf K))
+    (total : LogOf K) (hd : d.WF) (hfs : FactorsOK d (pots.map Prod.snd)) (hkeys : pots.map Prod.fst = cliques)
+    (hnd : cliques.Nodup)
+    (hne : cliques ≠ []) (hcover : ∀ a ∈ d.attrs, ∃ p ∈ pots, a ∈ p.2.dom.attrs)
+    (hsizes : ∀ p ∈ d, 0 < p.2) (hZ : partition d pots ≠ 0) (idx : List Nat) (hidx : InRange d.shape idx) :
+    (datavectorScale ((datavectorCore d cliques pots).vals.data.toList.map (fun x => (⟨x.v⟩ : PlainOf K)))
+        ⟨1⟩ ⟨total.v⟩)[ravel d.shape idx]?
+      = some ⟨joint pots (Dom.assign d.attrs idx) / partition d pots * 1 * total.v⟩ := by
+  apply Sem.datavector_correct <;> assumption
+
+/-- **`krondot`**: entry `(r₁,…,r_k)` of the answer is
+`Σ_x (Π_i Qᵢ[rᵢ, xᵢ]) · total · joint(x) / Z` — the Kronecker-product query applied to the joint.
+`expPots` are the exponentiated potentials, `mats[i] = (rows, flat entries)` for attribute `i`. -/
+theorem krondot_correct (d : Dom) (pots : CliqueVec (LogOf K)) (mats : List (Nat × List (PlainOf K)))
+    (total z : PlainOf K) (hd : d.WF) (hfs : FactorsOK d (pots.map Prod.snd)) (hne : pots ≠ [])
+    (hcover : ∀ a ∈ d.attrs, ∃ p ∈ pots, a ∈ p.2.dom.attrs)
+    (hfresh : ∀ a ∈ d.attrs, (a ++ "-answer") ∉ d.attrs)
+    (hinj : ∀ a ∈ d.attrs, ∀ b ∈ d.attrs, a ++ "-answer" = b ++ "-answer" → a = b)
+    (hlen : mats.length = d.length)
+    (hshape : ∀ i (hi : i < mats.length), (mats[i]).2.length = (mats[i]).1 * (d.shape.getD i 0))
+    (hsizes : ∀ p ∈ d, 0 < p.2) (hz : z.v = partition d pots)
+    (ridx : List Nat) (hr : InRange (mats.map (·.1)) ridx) :
+    ((krondot d (pots.map (fun p => toPlain p.2.exp)) mats total z).get ridx).v
+      = sumOver d d.attrs (fun _ => 0) (fun τ =>
+          ((List.range d.length).map (fun i =>
+            (((mats.getD i (0, [])).2).getD (ridx.getD i 0 * d.shape.getD i 0 + τ (d.attrs.getD i "")) ⟨0⟩).v)).prod
+          * joint pots τ) * total.v / partition d pots := by
+  apply Sem.krondot_correct <;> assumption
+
+/-- **`calculate_many_marginals`** (Koller–Friedman §10.3 out-of-clique queries): on a valid
+junction tree with calibrated clique marginals (`hcal`: each stored table is `s ·` the joint's
+marginal — what `belief_propagation` returns, `s = total/Z`) and a correct fallback, every answer is
+`s ·` the joint's marginal onto the requested tuple, laid out in the requested order. -/
+theorem manyMarginals_correct (d : Dom) (cliques : List Clique) (t : Tree) (order : List (Clique × Clique))
+    (pots : CliqueVec (LogOf K)) (marg : CliqueVec (PlainOf K)) (s : K)
+    (fallback : List Attr → Factor (PlainOf K)) (projections : List (List Attr))
+    (hok : ModelOK d cliques t order pots)
+    (hkeys : marg.map Prod.fst = cliques)
+    (hwf : ∀ p ∈ marg, p.2.WF ∧ p.2.dom.attrs.Perm p.1 ∧ p.2.dom.Agrees d)
+    (hcal : ∀ c ∈ cliques, ∀ σ, d.Valid σ → ((marg.get c).sem σ).v = s * marginal d pots c σ)
+    (hnonneg : ∀ p ∈ marg, ∀ x ∈ p.2.vals.data.toList, 0 ≤ x.v)
+    (hfb : ∀ proj ∈ projections, ∀ σ, d.Valid σ →
+      (fallback proj).dom.attrs = proj ∧ ((fallback proj).sem σ).v = s * marginal d pots proj σ)
+    (hproj : ∀ proj ∈ projections, proj.Nodup ∧ ∀ a ∈ proj, a ∈ d.attrs)
+    (e : List Attr × Factor (PlainOf K)) (he : e ∈ manyMarginals d cliques t marg fallback projections)
+    (σ : Attr → Nat) (hσ : d.Valid σ) :
+    e.2.dom.attrs = e.1 ∧ (e.2.sem σ).v = s * marginal d pots e.1 σ := by
+  apply Sem.manyMarginals_correct <;> assumption
 
 end PGM.C02
